@@ -114,12 +114,17 @@ Definition read_rest (t : Z) (size : Z) : rd (list Z) :=
 Definition two31 : Z := 2147483648.
 Definition two32 : Z := 4294967296.
 
-Definition parse_cut (extclip : bool) (t : Z) : rd msg :=
+(* slack for the compressed form of an extended clipboard message (only with the proposed
+   repair notes/fix_C18_3.diff, [xl] = true) *)
+Definition c06_ext_slack : Z := 1024.
+
+Definition parse_cut (extclip xl : bool) (t : Z) : rd msg :=
   bind (read_rest t c06_sz_ClientCutText) (fun m =>
   need (be32_at m c06_off_cut_length) (fun len0 =>
     let ext := extclip && (two31 <=? len0) in
     let len := if ext then (two32 - len0) mod two32 else len0 in     (* uint32_t negation *)
-    if c06_cut_text_limit <? len then fail PTooBig else
+    let lim := if ext && xl then c06_cut_text_limit + c06_ext_slack else c06_cut_text_limit in
+    if lim <? len then fail PTooBig else
     bind (read_exact (nat_of len)) (fun s =>
       ret (if ext then MCutExt s else MCutText s)))).
 
@@ -133,7 +138,7 @@ Definition parse_textchat (t : Z) : rd msg :=
     else fail PTooBig)).
 
 (* the switch on the message type (first byte already read) *)
-Definition parse_body (extclip : bool) (t : Z) : rd msg :=
+Definition parse_body (extclip xl : bool) (t : Z) : rd msg :=
     if t =? c06_rfbSetPixelFormat then bind (read_rest t c06_sz_SetPixelFormat) (fun m => ret (MSetPixFmt m))
     else if t =? c06_rfbFixColourMapEntries then bind (read_rest t c06_sz_FixColourMapEntries) (fun m => ret (MFixColourMap m))
     else if t =? c06_rfbSetEncodings then
@@ -150,7 +155,7 @@ Definition parse_body (extclip : bool) (t : Z) : rd msg :=
       need (byte_at m c06_off_ptr_mask) (fun b =>
       need (be16_at m c06_off_ptr_x) (fun x =>
       need (be16_at m c06_off_ptr_y) (fun y => ret (MPtr b x y)))))
-    else if t =? c06_rfbClientCutText then parse_cut extclip t
+    else if t =? c06_rfbClientCutText then parse_cut extclip xl t
     else if (t =? c06_rfbSetScale) || (t =? c06_rfbPalmVNCSetScaleFactor) then
       bind (read_rest t c06_sz_SetScale) (fun m =>
       need (byte_at m c06_off_scale) (fun n => ret (MSetScale (t =? c06_rfbPalmVNCSetScaleFactor) n)))
@@ -166,8 +171,8 @@ Definition parse_body (extclip : bool) (t : Z) : rd msg :=
     else if t =? c06_rfbFileTransfer then fail (PUnmodelled t)
     else fail (PUnknown t).
 
-Definition parse_normal (extclip : bool) : rd msg :=
-  bind (read_exact 1) (fun t1 => need (byte_at t1 0) (parse_body extclip)).
+Definition parse_normal (extclip xl : bool) : rd msg :=
+  bind (read_exact 1) (fun t1 => need (byte_at t1 0) (parse_body extclip xl)).
 
 Inductive cstate := SVersion | SSecType | SAuth | SInit | SNormal.
 
@@ -177,13 +182,13 @@ Definition state_code (s : cstate) : Z :=
   | SAuth => c06_RFB_AUTHENTICATION | SInit => c06_RFB_INITIALISATION | SNormal => c06_RFB_NORMAL
   end.
 
-Definition parse_for (st : cstate) (extclip : bool) : rd msg :=
+Definition parse_for (st : cstate) (extclip xl : bool) : rd msg :=
   match st with
   | SVersion => bind (read_exact (nat_of c06_sz_ProtocolVersion)) (fun b => ret (HVersion b))
   | SSecType => bind (read_exact 1) (fun b => need (byte_at b 0) (fun t => ret (HSecType t)))
   | SAuth => bind (read_exact (nat_of c06_CHALLENGESIZE)) (fun b => ret (HAuthResp b))
   | SInit => bind (read_exact (nat_of c06_sz_ClientInit)) (fun b => need (byte_at b 0) (fun s => ret (HClientInit s)))
-  | SNormal => parse_normal extclip
+  | SNormal => parse_normal extclip xl
   end.
 
 (* ------------------------------------------------------------------------------------ *)
@@ -287,16 +292,27 @@ Record config := mkCfg {
   g_never : bool; g_always : bool; g_dontdisc : bool;   (* neverShared alwaysShared dontDisconnect *)
   g_deferptr : Z;                (* screen->deferPtrUpdateTime (ms) *)
   g_utf8cb : bool;               (* screen->setXCutTextUTF8 != NULL *)
-  g_variant : Z                  (* which of the proposed repairs the library under test contains (bit set) *)
+  g_variant : Z                  (* regression-witness selector, see below; 0 = the code as it is *)
 }.
 
-(* The mirror follows the code as it is (variant 0).  Each proposed repair of a defect this
-   model exhibits (notes/fix_C06_1, fix_C06_2, fix_C18_1, fix_C18_2) is a bit: the check
-   finds out from the library's behaviour on the witnesses which variant it is talking to. *)
-Definition fix_defer (cfg : config) : bool := Z.testbit (g_variant cfg) 0.   (* stale coalesced position dropped *)
-Definition fix_scale (cfg : config) : bool := Z.testbit (g_variant cfg) 1.   (* ScaleX/ScaleY multiply first *)
-Definition fix_lock (cfg : config) : bool := Z.testbit (g_variant cfg) 2.    (* UTF8 publish without fallback unlocks *)
-Definition fix_short (cfg : config) : bool := Z.testbit (g_variant cfg) 3.   (* short extended-provide stream refused *)
+(* The mirror follows the code as it is NOW (variant 0), i.e. with the repairs
+     4105625 (a pointer event delivered at once discards the older coalesced position),
+     c7c2b1b (ScaleX/ScaleY multiply before dividing),
+     3fe86ea (rfbSendServerCutTextUTF8 releases the send mutex of clients it sends nothing to),
+     260e10a (an extended-clipboard record whose size field exceeds the inflated data is refused),
+     2d15d75 (SetEncodings also resets the extended-clipboard capability),
+     8e7b6f1 (a scale factor that reduces the width to zero is refused).
+   Bits 0..4 of [g_variant] switch the corresponding OLD behaviour back on: they exist so that
+   the former defects stay available as proved regression witnesses and so that the check can
+   say precisely which defect has come back when the library regresses.  Bit 5 is different:
+   it selects the PROPOSED repair notes/fix_C18_3.diff (1 KiB of slack for the compressed form
+   of an extended clipboard message), which the library does not contain yet. *)
+Definition fix_defer (cfg : config) : bool := negb (Z.testbit (g_variant cfg) 0).
+Definition fix_scale (cfg : config) : bool := negb (Z.testbit (g_variant cfg) 1).
+Definition fix_lock (cfg : config) : bool := negb (Z.testbit (g_variant cfg) 2).
+Definition fix_short (cfg : config) : bool := negb (Z.testbit (g_variant cfg) 3).
+Definition fix_extreset (cfg : config) : bool := negb (Z.testbit (g_variant cfg) 4).
+Definition fix_extlimit (cfg : config) : bool := Z.testbit (g_variant cfg) 5.
 
 Record server := mkSrv {
   s_cfg : config;
@@ -467,13 +483,16 @@ Definition apply_normal (cfg : config) (o : option Z) (c : client) (m : msg) : a
       let c1 := set_clip c k' in
       mkApplied (if close then set_closed c1 true else c1) o
                 (map (ev_of_utf8 (c_id c)) texts) false
-  | MSetEncodings encs => applied_same (set_clip c (apply_encodings cfg (c_clip c) encs)) o
+  | MSetEncodings encs =>
+      (* every SetEncodings first resets the capability flags - since 2d15d75 also the extended clipboard *)
+      let k0 := if fix_extreset cfg then set_ext (c_clip c) false else c_clip c in
+      applied_same (set_clip c (apply_encodings cfg k0 encs)) o
   | MSetScale _ n =>
       if n =? 0 then applied_close c o else
       let w := g_w cfg / n in
       let h := g_h cfg / n in
       if (w =? g_w cfg) && (h =? g_h cfg) then applied_same (set_scaled c w h) o   (* rfbScalingFind: the screen itself *)
-      else if h =? 0 then applied_same c o                                       (* allocation refused: nothing changes *)
+      else if (h =? 0) || (w =? 0) then applied_same c o                         (* allocation refused (8e7b6f1: also width 0): nothing changes *)
       else applied_same (set_scaled c w h) o
   | MFixColourMap _ => applied_close c o
   | MSetPixFmt m =>
@@ -495,7 +514,7 @@ Definition apply_msg (cfg : config) (o : option Z) (c : client) (m : msg) (other
 
 (* rfbProcessClientMessage for one connection: parse (reads), then apply *)
 Definition handle_client (cfg : config) (o : option Z) (c : client) (others_normal : bool) : applied :=
-  match parse_for (c_state c) (k_ext (c_clip c)) (c_in c) with
+  match parse_for (c_state c) (k_ext (c_clip c)) (fix_extlimit cfg) (c_in c) with
   | RFail _ => applied_close c o
   | ROk m i' => apply_msg cfg o (set_in c i') m others_normal
   end.
